@@ -231,7 +231,18 @@ class Pipeline(object):
 
         self._worker_tasks.clear()
 
-        yield from self._producer_task
+        if not self._producer_task.done():
+            # After a stop request the producer may still be waiting for a
+            # worker to make room in the queue, but no worker is left.
+            self._producer_task.cancel()
+
+        try:
+            yield from self._producer_task
+        except asyncio.CancelledError:
+            if not self._producer_task.cancelled():
+                raise
+
+            self._warn_discarded_items()
 
         self._state = PipelineState.stopped
 
